@@ -322,7 +322,15 @@ func (s *state) Enqueue(task *Task) (nwait int) {
 	}
 	for _, task := range task.Phase() {
 		switch task.State() {
-		case TaskOk, TaskErr:
+		case TaskOk:
+		case TaskErr:
+			// The task failed fatally (possibly in an earlier evaluation
+			// that shares it): it cannot be treated as done, and neither
+			// it nor its dependents can complete in this evaluation.
+			if s.err == nil {
+				s.err = errors.E(fmt.Sprintf("error running %s", task.Name), task.Err())
+			}
+			nwait++
 		case TaskWaiting, TaskRunning:
 			s.schedule(task)
 			nwait++
